@@ -48,7 +48,9 @@ TEXTS = {
                      'fits(...) (iff contract, loop invariants, termination); the group continues FLAT iff fits(available width); available '
                      'width == min(W - col, indent + R - col); smart fits implies fast fits (lemma_fits_mono); what fits bounds the first line '
                      'of den (lemma_bound, lemma_fits_bounds_line, structural induction with independent indentations and modes); the normal '
-                     'form keeps atoms (family normalize). Bounded stand-in (not counted as proved): decisions recovered through the reference '
+                     'form keeps atoms (family normalize). Second part: for documents whose normal form is classic with non-negative nests, a group '
+                     'nested in a flat group is laid out flat too (line-budget invariant fits_stack(aw, SMART, mnl, aw - written, stack); '
+                     'ghost assertion at the inner decision), so all text of the flat group is on that line. Bounded stand-in (not counted as proved): decisions recovered through the reference '
                      'semantics on all classic documents INCLUDING align of <= 5 (6) nodes x widths x fractions x strategies; a violation needs every '
                      'assignment matching the output to overflow. Two known findings (re-decided inner group under align; flat across a hard line).',
                 note=_ENC + 'same assumptions as C04; float*int and round() uninterpreted; align (contextual documents) is outside the proved '
